@@ -227,6 +227,10 @@ def load_map(fname, mdir=None):
         m.dataele = load_dataele(mdir)
         m.codes = load_codes(mdir)
         _load_children(root_e, m, m)
+        m.by_uid = {}
+        for i, n in enumerate(walk(m)):
+            n.uid = i
+            m.by_uid[i] = n
         _cache[key] = m
     return _cache[key]
 
